@@ -805,10 +805,41 @@ def r12_8(ctx):
     fr = F.method(PA, 'is_free')
     ctx.need(rs is not None and fr is not None, "PacketAssembler::reset / is_free")
     sites = [x[0] for x in b.calls() if b.callee_name(x[1]) == rs.key]
-    ctx.need(sites, "reset() call in PacketAssemblerSet::remove_expired")
     # edges that contradict "slot occupied and expired"
     contra = lambda f: (f[0] == 'bool' and f[2] is True and is_call(strip(f[1]), '::is_free')) or \
         (f[0] == 'rel' and f[1] in ('Ge', 'Gt') and any(l.endswith('.expires_at') for l in leafs(f[2])) and not any(l.endswith('.expires_at') for l in leafs(f[3])))
+    if not sites:
+        # iterator form: `.filter(c1).filter(c2).for_each(|f| f.reset())` - every filter closure must be able to answer
+        # true for an occupied, expired slot
+        fe = [x for x in b.calls() if (b.callee_name(x[1]) or '').rsplit('::', 1)[-1] == 'for_each' and len(x[2]) == 2]
+        ok_chain = None
+        for x in fe:
+            clo = strip(F.origin.operand(b, x[2][1], x[0], len(b.blocks[x[0]]['s'])))
+            cbody = F.bodies.get(str(clo[1])[len('closure:'):]) if clo[0] == 'agg' and str(clo[1]).startswith('closure:') else None
+            resets = (cbody is not None and any(cbody.callee_name(y[1]) == rs.key for y in cbody.calls())) or \
+                any(l == 'C:' + rs.key or l.endswith('::reset') for l in leafs(clo))
+            if not resets:
+                continue
+            ok_chain = True
+            n = strip(F.origin.operand(b, x[2][0], x[0], len(b.blocks[x[0]]['s'])))
+            for _ in range(8):
+                while n[0] in ('ref', 'deref', 'after') and len(n) >= 2:
+                    n = strip(n[1])
+                if n[0] != 'call' or not n[2]:
+                    break
+                if n[1].rsplit('::', 1)[-1] == 'filter' and len(n[2]) == 2:
+                    c2 = strip(n[2][1])
+                    fb = F.bodies.get(str(c2[1])[len('closure:'):]) if c2[0] == 'agg' and str(c2[1]).startswith('closure:') else None
+                    if fb is None or not _can_answer_true(F, fb, contra):
+                        ok_chain = False
+                n = strip(n[2][0])
+        ctx.need(ok_chain is not None, "reset() of the slots in PacketAssemblerSet::remove_expired (loop or for_each form)")
+        if ok_chain:
+            ctx.ok(('remove_expired', 'occupied+expired -> reset'), sample=dict(fn='remove_expired', form='filter(..).for_each(reset)'))
+        else:
+            ctx.bad("remove_expired|occupied-slot-never-reset", "remove_expired never resets a slot that holds fragments and whose deadline passed (a filter in front of "
+                    "the reset rejects exactly those slots)", body=b)
+        return
     cut = set(guard_edges(F, b, contra))
     ctx.need(cut, "tests of is_free() / expires_at in remove_expired")
     seen = b.reachable(cut_edges=cut)
@@ -1009,3 +1040,48 @@ def r08_9(ctx):
             else:
                 ctx.bad(f"Checksum::{fn}|{v}", f"Checksum::{fn}() answers {sorted(vals) if vals is not None else '?'} for the setting {v} (expected {exp}): "
                         + ("received checksums are not verified under a setting that asks for it" if fn == 'rx' else "emitted checksums are not computed under a setting that asks for it"), body=b)
+
+
+def _can_answer_true(F, cb, contra):
+    """can the bool closure / helper cb answer true on a path that passes no edge on which `contra` holds, its directly
+    returned value not being one that `contra` makes false"""
+    cut = set(guard_edges(F, cb, contra))
+    seen = cb.reachable(cut_edges=cut)
+    for bi in sorted(seen):
+        bl = cb.blocks[bi]
+        if bl['cl']:
+            continue
+        outs = []
+        for si, s_ in enumerate(bl['s']):
+            if s_[0] == 'a' and s_[1] == [0, []]:
+                outs.append(F.origin.rvalue(cb, s_[2], bi, si, 0, None))
+        t = bl['t']
+        if t[0] == 'call' and t[3] == [0, []]:
+            outs.append(F.origin.call_node(cb, t, bi, 0, None))
+        for o in outs:
+            o = strip(simplify(o))
+            c = const_of(o)
+            if c is not None:
+                if c:
+                    return True
+                continue
+            neg = False
+            while o[0] == 'un' and o[1] == 'Not':
+                neg = not neg
+                o = strip(o[2])
+            # the value itself as a fact: true-valued `o` (or false-valued when negated) must not be contradicted
+            f = None
+            if o[0] == 'bin' and o[1] in ('Lt', 'Le', 'Gt', 'Ge', 'Eq', 'Ne'):
+                op = o[1] if not neg else {'Lt': 'Ge', 'Le': 'Gt', 'Gt': 'Le', 'Ge': 'Lt', 'Eq': 'Ne', 'Ne': 'Eq'}[o[1]]
+                f = ('rel', op, o[2], o[3])
+            elif o[0] == 'call' and o[1].rsplit('::', 1)[-1] in ('lt', 'le', 'gt', 'ge') and len(o[2]) == 2:
+                op = {'lt': 'Lt', 'le': 'Le', 'gt': 'Gt', 'ge': 'Ge'}[o[1].rsplit('::', 1)[-1]]
+                if neg:
+                    op = {'Lt': 'Ge', 'Le': 'Gt', 'Gt': 'Le', 'Ge': 'Lt'}[op]
+                f = ('rel', op, o[2][0], o[2][1])
+            else:
+                f = ('bool', o, not neg)
+            from ..core import _both_orientations
+            if not _both_orientations(contra)(f):
+                return True
+    return False
